@@ -10,30 +10,41 @@ Els == << [el |-> "H", ty |-> "regular"], [el |-> "Br", ty |-> "dummy"], [el |->
           [el |-> "dummy", ty |-> "dummy"], [el |-> "C", ty |-> "regular"], [el |-> "H", ty |-> "dummy"] >>
 ElAt(eo, i) == Els[((eo + i - 1) % Len(Els)) + 1]
 (* [u, s]: zero, +-1 micro-A with a seventh digit, 123.456789 A, 1.5 A, large, negative, 2000 A *)
-CoordsM == << [u |-> 0, s |-> 0], [u |-> 1, s |-> 3], [u |-> -1, s |-> -4], [u |-> 123456789, s |-> 2],
+CoordsM == << [u |-> 0, s |-> 0], [u |-> 1, s |-> 3], [u |-> -1, s |-> -4], [u |-> 123456789, s |-> 2], [u |-> 999999999, s |-> 3],
               [u |-> -1500000, s |-> 0], [u |-> 1000000, s |-> -3], [u |-> -2, s |-> 4], [u |-> 2000000001, s |-> -1],
-              [u |-> -987654321, s |-> 4], [u |-> 529177, s |-> 1], [u |-> -1, s |-> 2] >>
+              [u |-> -987654321, s |-> 4], [u |-> 529177, s |-> 1], [u |-> -1, s |-> 2], [u |-> -999999999, s |-> -2] >>
 (* integer grains for files of other programs; all <= 200 so that every unit (Bohr included) may use them *)
 CoordsF == << 0, 1, -1, 15, -23, 120, 199, -7, 42, -200, 3 >>
 (* larger grains (decimal units only) *)
 CoordsG == << 0, 10999, -4567, 1, 2500, -1, 333, -10000, 8, 1234, -9 >>
 
+(* scale 1000 (integers are micro-kiloangstrom = 1e-3 A): 1e4, 9.9e4, 1e5, 1e6, 2e6 A and the widths in between, both signs *)
+CoordsK == << [u |-> 10000000, s |-> 0], [u |-> -10000000, s |-> 3], [u |-> 99000000, s |-> -2], [u |-> -99999999, s |-> 4],
+              [u |-> 100000000, s |-> 1], [u |-> -100000000, s |-> 0], [u |-> 1000000000, s |-> -3], [u |-> -1000000000, s |-> 2],
+              [u |-> 999999, s |-> 4], [u |-> -54510032, s |-> 3], [u |-> 2000000000, s |-> 0], [u |-> -12345678, s |-> -1],
+              [u |-> 0, s |-> 0] >>
 Pick(L, i) == L[((i + Shift) % Len(L)) + 1]
 MkFrame(L, n, eo, co) == [i \in 1..n |-> [el |-> ElAt(eo, i).el, ty |-> ElAt(eo, i).ty,
                                           x |-> Pick(L, co + 3 * (i - 1)), y |-> Pick(L, co + 3 * (i - 1) + 1),
                                           z |-> Pick(L, co + 3 * (i - 1) + 2)]]
-Geoms(ns, eos, cos) == {[cls |-> c, frames |-> <<MkFrame(CoordsM, n, eo, co)>>] :
+GeomsW(L, w, ns, eos, cos) == {[cls |-> c, frames |-> <<MkFrame(L, n, eo, co)>>, world |-> w] :
                            c \in GeomClasses, n \in ns, eo \in eos, co \in cos}
-Enss(ks, ns, eos, cos) == {[cls |-> Ens, frames |-> [j \in 1..k |-> MkFrame(CoordsM, n, eo, co + 2 * j)]] :
+EnssW(L, w, ks, ns, eos, cos) == {[cls |-> Ens, frames |-> [j \in 1..k |-> MkFrame(L, n, eo, co + 2 * j)], world |-> w] :
                            k \in ks, n \in ns, eo \in eos, co \in cos}
+Geoms(ns, eos, cos) == GeomsW(CoordsM, 1, ns, eos, cos)
+Enss(ks, ns, eos, cos) == EnssW(CoordsM, 1, ks, ns, eos, cos)
+(* every class (the Conformer view through DumpConformer) with the wide values in every column; eo = 2, 3: Og, no-element   *)
+(* dummy (the longest symbol a writer may use), C, dummy-type H                                                           *)
+BigQ == GeomsW(CoordsK, 1000, {1, 3}, {2}, {0, 5}) \cup EnssW(CoordsK, 1000, {2}, {1, 3}, {2}, {0, 5, 9})
+BigT == GeomsW(CoordsK, 1000, 1..3, {2, 3}, 0..12) \cup EnssW(CoordsK, 1000, 1..3, 1..3, {2, 3}, 0..12)
 Files(L, ks, ns, eos, cos) == {[j \in 1..k |-> MkFrame(L, n, eo, co + 2 * j)] : k \in ks, n \in ns, eo \in eos, co \in cos}
 
 SmallQ == Geoms({0, 1}, {1}, {2}) \cup Enss({2}, {0, 2}, {0}, {5})
-PoolQ  == Geoms(0..3, {0, 2}, {0, 4, 7}) \cup Enss(1..3, 0..3, {1}, {1, 6}) \cup SmallQ
+PoolQ  == Geoms(0..3, {0, 2}, {0, 4, 7}) \cup Enss(1..3, 0..3, {1}, {1, 6}) \cup SmallQ \cup BigQ
 FPoolQ == Files(CoordsF, 1..2, 0..3, {0}, {0, 5}) \cup Files(CoordsG, {1, 3}, {2}, {3}, {1})
 
 SmallT == {g \in Geoms({0, 1, 2}, {1}, {2}) : g.cls # "Structure" \/ g.frames[1] = <<>>} \cup Enss({2}, {0, 2}, {0}, {5})
-PoolT  == Geoms(0..3, 0..3, 0..10) \cup Enss(1..3, 0..3, 0..3, 0..10) \cup SmallT
+PoolT  == Geoms(0..3, 0..3, 0..10) \cup Enss(1..3, 0..3, 0..3, 0..10) \cup SmallT \cup BigT
 FPoolT == Files(CoordsF, 1..3, 0..3, {0, 2}, {0, 3, 6, 9}) \cup Files(CoordsG, 1..3, 1..3, {1, 3}, {1, 4, 8})
 NoGeoms == {}
 NoFiles == {}
@@ -51,6 +62,8 @@ DevEmpty    == {"EmptyFrameUnreadable"}
 DevFrames   == {"FrameBoundaryLost"}
 DevColumns  == {"ColumnsSwapped"}
 DevDummy    == {"DummyTypeHidesElement"}
+DevWide     == {"WideColumnsFuse"}
+PoolW  == EnssW(CoordsK, 1000, {2}, {1, 3}, {2}, {0, 5}) \cup SmallD
 
 ASSUME PoolOK
 
